@@ -34,6 +34,8 @@ type mwScope struct{ body S }
 func (s mwScope) lean(ind string) string { return "scope (" + s.body.lean(ind+"  ") + ")" }
 
 type mwWalker struct {
+	pkg      *pkg            // for inlining same-package helpers that are not in the vocabulary
+	inlining map[string]bool // callees being inlined (recursion guard)
 	imports  map[string]bool
 	vocab    map[string]int
 	atom     *int
@@ -148,7 +150,7 @@ func (w *mwWalker) event(desc string) S {
 	return sSkip{}
 }
 
-var mwBuiltins = map[string]bool{"len": true, "cap": true, "make": true, "append": true, "clear": true, "max": true, "min": true,
+var mwBuiltins = map[string]bool{"len": true, "cap": true, "make": true, "append": true, "max": true, "min": true,
 	"string": true, "int": true, "int64": true, "float64": true, "byte": true, "new": true, "delete": true, "copy": true}
 
 // expr: the events of evaluating e, in evaluation order (receiver and arguments before the call itself)
@@ -180,7 +182,13 @@ func (w *mwWalker) expr(e ast.Expr) S {
 			parts = append(parts, mwScope{w.block(fl.Body.List)})
 			return mkSeq(parts)
 		}
-		parts = append(parts, w.event(w.callDesc(v)))
+		desc := w.callDesc(v)
+		if _, known := w.vocab[w.prefix+desc]; !known {
+			if body := w.inline(v); body != nil {
+				return mkSeq(append(parts, body))
+			}
+		}
+		parts = append(parts, w.event(desc))
 		return mkSeq(parts)
 	case *ast.FuncLit:
 		return sSkip{} // not executed here
@@ -217,6 +225,48 @@ func (w *mwWalker) expr(e ast.Expr) S {
 	}
 	mwFail(e, "unhandled expression form %T (%s)", e, src(e))
 	return nil
+}
+
+// inline: a call of a helper of the same package that is not itself in the vocabulary — a package-level function
+// called by its name, or a method called directly on a local (`cw.helper(…)`) whose name is a method of exactly one type
+// of the package — is replaced by the skeleton of its body (a `return` leaves only the helper), so that extracting a
+// helper from one of the functions the obligations are about does not change their event traces. nil = not inlined.
+func (w *mwWalker) inline(c *ast.CallExpr) S {
+	if w.pkg == nil {
+		return nil
+	}
+	var d *ast.FuncDecl
+	key := ""
+	switch f := c.Fun.(type) {
+	case *ast.Ident:
+		d, key = w.pkg.funcs[f.Name], f.Name
+	case *ast.SelectorExpr:
+		if id, ok := f.X.(*ast.Ident); ok && !w.imports[id.Name] {
+			n := 0
+			for rt, ms := range w.pkg.methods {
+				if m := ms[f.Sel.Name]; m != nil {
+					d, key = m, rt+"."+f.Sel.Name
+					n++
+				}
+			}
+			if n != 1 {
+				d = nil
+			}
+		}
+	}
+	if d == nil || d.Body == nil || w.inlining[key] || len(w.inlining) >= 4 {
+		return nil
+	}
+	if w.inlining == nil {
+		w.inlining = map[string]bool{}
+	}
+	w.inlining[key] = true
+	save := w.loopBody
+	w.loopBody = false
+	body := w.block(d.Body.List)
+	w.loopBody = save
+	delete(w.inlining, key)
+	return mwScope{body}
 }
 
 func (w *mwWalker) newAtom() int {
@@ -490,7 +540,7 @@ func (g *mwGen) walker(p *pkg) *mwWalker {
 	for i, s := range g.vocab {
 		v[s] = i + 1
 	}
-	return &mwWalker{imports: mwImports(p), vocab: v, atom: &g.atom, others: g.others}
+	return &mwWalker{pkg: p, imports: mwImports(p), vocab: v, atom: &g.atom, others: g.others}
 }
 
 // guard runs f; a problem (mwErr or a fatalErr of the shared finders) is recorded, not fatal
